@@ -12,7 +12,7 @@ META = {
     'level_text': 'Proved for every memory, every buffer position and every declared length sz < 2^31: the result of decode depends only on the sz supplied bytes; it is negative, or larger than sz, or equals the '
                   'number L of bytes the header occupies with 44 <= L <= sz (in which case every field was read inside the buffer); an accepted header declared with any shorter length k < L is never accepted '
                   '(result negative or > k); validate and get_format are total and tostring never divides by zero, for every structure.',
-    'level_note': 'Trusted: Lean kernel (standard axioms; byte-order lemmas via bv_decide certificates where listed in trusted_base); the hand model of wavheader.c/pack.c, validated on every run against the real '
+    'level_note': 'Tie T2 (DESIGN 12.7): rf_wavheader_decode is regenerated each run as a control skeleton with data and proved equal to Model.Wav.decode - every member, the early rejection of a format chunk size above 0x7fffff00, the three header tests with the wrapping size sum, the returned sz - rf_pack_remaining() (Props/C13TieSeq.lean: decode_generated, decode_tie, decode_ret_tie). Trusted: Lean kernel (standard axioms; byte-order lemmas via bv_decide certificates where listed in trusted_base); the hand model of wavheader.c/pack.c, validated on every run against the real '
                   'code (every truncation point of every generated valid header, field-mutated and random inputs, size fields up to 0xffffffff) — that the real code performs no access outside the model\'s reads is '
                   'observed by ASan on the sampled inputs, not proved about the C; printf/strdup are libc and not modelled (the harness parses the real string); sz >= 2^31 is outside the property\'s scope.',
     'design_ref': '§6 C14',
@@ -231,7 +231,15 @@ def run(ctx):
     for u, e in regen.regen(['Wav']):          # tie T: rf_wavheader_get_format regenerated from wavheader.c
         ctx.broken.append(f'tie T: tools/c2lean.py cannot translate unit {u}: {e}')
     tie_ok = lambda t, a: bv_allow(t, a) or (t in ('Librfn.C13.get_format_generated', 'Librfn.C13.get_format_tie') and a.startswith('Librfn.C13.get_format_generated._native.bv_decide.ax_'))
-    ctx.prove(['Librfn.Props.C14', 'Librfn.Props.C13Tie'], REQUIRED + ['Librfn.C13.get_format_tie'], allow_extra_axioms=tie_ok)
+    # tie T (second generation): rf_wavheader_decode regenerated as a control skeleton with data and proved equal to Model.Wav.decode
+    # (members and returned value) for every memory, buffer size and prior structure contents (Props/C13TieSeq.lean)
+    for u, e in regen.regen(['WavSeq']):
+        ctx.broken.append(f'tie T: tools/c2lean2.py cannot translate unit {u}: {e}')
+    seq_ok = lambda t, a: t.startswith('Librfn.C13.TieSeq.') and a.startswith('Librfn.C13.TieSeq.') and '._native.bv_decide.ax_' in a
+    ctx.prove(['Librfn.Props.C14', 'Librfn.Props.C13Tie', 'Librfn.Props.C13TieSeq'],
+              REQUIRED + ['Librfn.C13.get_format_tie', 'Librfn.C13.TieSeq.decode_generated', 'Librfn.C13.TieSeq.decode_tie', 'Librfn.C13.TieSeq.decode_ret_tie'],
+              allow_extra_axioms=lambda t, a: tie_ok(t, a) or seq_ok(t, a))
+    ctx.cov['tie_T_generated_units'] = {'WavSeq': ['rf_wavheader_decode'], 'Wav': ['rf_wavheader_get_format']}
     exe = harness(ctx)
     q = ctx.tier == 'quick'
     hs = pw.corpus('C14')
